@@ -44,6 +44,8 @@ func NewBarrier(count int, f func(msgTs uint64, b *Barrier), u func(vchannel str
 		for current < barrier.Dest {
 			select {
 			case <-barrier.CloseChan:
+				// the collection / partition is not read any more: nothing will ever complete this barrier
+				return
 			case signal := <-barrier.BarrierSignalChan:
 				if u != nil {
 					u(signal.VChannel, signal.Msg)
